@@ -1,7 +1,7 @@
 (** C12 — version and msize negotiation.  Only statements, each closed by [exact]
     of a lemma proved in Fs/VersionProofs.v, followed by Print Assumptions. *)
 From Coq Require Import NArith String List.
-From P9V Require Import Base.Str gen.ConstGen Fs.Version Fs.VersionProofs Fs.VersionDigits Fs.VersionText.
+From P9V Require Import Base.Str gen.ConstGen Fs.Version Fs.VersionProofs Fs.VersionDigits Fs.VersionText Fs.VersionPrims gen.VersionGen Fs.VersionTie.
 Import ListNotations.
 Open Scope string_scope.
 Open Scope N_scope.
@@ -174,3 +174,20 @@ Example C12_ex_session :
   = ({| cs_msize := 4096; cs_version := 2 |},
      [(8192, "9P2000.L.Google.7"); (0, "unknown"); (4096, "9P2000.L.Google.2"); (0, "unknown")]).
 Proof. vm_compute. reflexivity. Qed.
+
+(** TIE BY TRANSLATION: gen/VersionGen.v holds parseVersion and versionString as go2coq TRANSLATED them from
+    p9/version.go on this run (switch over the literal strings, strings.Split, the length and field tests in
+    source order, strconv.ParseUint with the base and bit size the source passes, the values returned);
+    they ARE the model's functions, for every string and number -- so every theorem above about
+    [parse_version] / [version_string] is a theorem about what the source says.  The library calls are the
+    named primitives of Fs/VersionPrims.v (hand models, trusted). *)
+Theorem C12_source_parse_is_model : forall s, gen_parseVersion s = enc_parse (parse_version s).
+Proof. exact gen_parseVersion_is_model. Qed.
+Print Assumptions C12_source_parse_is_model.
+Theorem C12_source_versionString_is_model : forall b v, gen_versionString (base_string b) v = version_string b v.
+Proof. exact gen_versionString_is_model. Qed.
+Print Assumptions C12_source_versionString_is_model.
+Theorem C12_source_canon : forall n, n < 4294967296 ->
+  gen_parseVersion (gen_versionString "9P2000.L" n) = ("9P2000.L", n, true).
+Proof. exact source_canon_roundtrip. Qed.
+Print Assumptions C12_source_canon.
